@@ -46,6 +46,7 @@ struct Res {
   bool have_exec = false;
   std::vector<uint8_t> exec;       // outputs of executing the generated code on the host (semantic oracle), when run
   std::string mon;                 // harness-side invariant monitor message ("" = fine)
+  std::string ra;                  // register-allocator state dumps (one per function, taken in X86RAPass::on_done of a REAL pass run)
   void fail(Error e, const char* st) {
     n_err++;
     if (err == Error::kOk) { err = e; stage = st; }
@@ -175,9 +176,12 @@ struct WAsmX86 : Workload {
   CodeHolder code;
   x86::Assembler a;
   int scale;
-  explicit WAsmX86(int s) : scale(s) {}
+  StringLogger* lg;      // optional: a logger attached to the holder - formatting allocations (String, heap) can fail too
+  explicit WAsmX86(int s, bool logged = false) : scale(s), lg(logged ? new StringLogger() : nullptr) {}
+  ~WAsmX86() override { delete lg; }
   void run(Res& r, int policy) override {
     if (!code.is_initialized()) CKF(code.init(Environment(Arch::kX64)));
+    if (lg) { lg->content().clear(); code.set_logger(lg); }
     if (!a.is_initialized()) CKF(code.attach(&a));
     x86_program(a, code, r, policy, scale);
     if (policy == P_STOP && r.err != Error::kOk) return;
@@ -288,9 +292,12 @@ struct WBuilder : Workload {
   CodeHolder code;
   x86::Builder b;
   int scale;
-  explicit WBuilder(int s) : scale(s) {}
+  StringLogger* lg;
+  explicit WBuilder(int s, bool logged = false) : scale(s), lg(logged ? new StringLogger() : nullptr) {}
+  ~WBuilder() override { delete lg; }
   void run(Res& r, int policy) override {
     if (!code.is_initialized()) CKF(code.init(Environment(Arch::kX64)));
+    if (lg) { lg->content().clear(); code.set_logger(lg); }
     if (!b.is_initialized()) CKF(code.attach(&b));
     policy = P_STOP;
     x86_program(b, code, r, policy, scale);
@@ -371,6 +378,50 @@ struct RecHandler : ErrorHandler {
   void handle_error(Error err, const char*, BaseEmitter*) override { if (first == Error::kOk) first = err; count++; }
 };
 
+// The register allocator's home-slot state at the end of a REAL pass run: a subclass of X86RAPass whose on_done() (called by
+// BaseRAPass::run_on_function after all steps, successful or not, before everything is torn down) dumps for every work register
+// whether it has a home slot and whether it was marked "stack used", and the owner of every register-home slot in creation
+// order. The proven checker (Coq: ra_check / ra_rewrite, extracted) validates each dump.
+static std::string g_ra_dump;
+struct DumpRAPass : x86::X86RAPass {
+  explicit DumpRAPass(BaseCompiler& cc) noexcept : x86::X86RAPass(cc) {}
+  void on_done() noexcept override {
+    std::string d;
+    size_t n = _work_regs.size();
+    for (RAStackSlot* slot : _stack_allocator._slots) {
+      if (!slot || !slot->is_reg_home()) continue;
+      long owner = -1;
+      for (size_t w = 0; w < n; w++) if (_work_regs[w]->stack_slot() == slot) owner = long(w);
+      d += (d.empty() ? "" : ",") + std::to_string(owner);
+    }
+    if (d.empty()) d = "-";
+    d += "/";
+    for (size_t w = 0; w < n; w++) d += _work_regs[w]->stack_slot() ? "1" : "0";
+    if (n == 0) d += "-";
+    d += "/";
+    for (size_t w = 0; w < n; w++) d += _work_regs[w]->is_stack_used() ? "1" : "0";
+    if (n == 0) d += "-";
+    g_ra_dump += (g_ra_dump.empty() ? "" : ";") + d;
+  }
+};
+static const char kDumpPassName[] = "C15DumpRAPass";
+
+static Error install_dump_pass(x86::Compiler& cc) {
+  // replace the pass called "RAPass" (x86::Compiler::on_attach / on_reinit add it behind GlobalConstPoolPass)
+  for (size_t i = 0; i < cc._passes.size(); i++) {
+    if (cc._passes[i]->_name == kDumpPassName) return Error::kOk;
+    if (strcmp(cc._passes[i]->_name, "RAPass") == 0) {
+      DumpRAPass* p = cc.new_pass<DumpRAPass>();
+      if (!p) return Error::kOutOfMemory;
+      p->_name = kDumpPassName;
+      cc._passes[i]->~Pass();
+      cc._passes[i] = p;
+      return Error::kOk;
+    }
+  }
+  return Error::kInvalidState;
+}
+
 // a JitAllocator whose own construction failed stays uninitialised by design (every call answers kNotInitialized)
 static bool jit_dead(JitRuntime* rt) {
   JitAllocator::Span probe;
@@ -412,8 +463,9 @@ struct WCompiler : Workload {
   RecHandler eh;
   JitRuntime* rt = nullptr;
   int nregs;
-  explicit WCompiler(int n) : nregs(n) {}
-  ~WCompiler() override { delete rt; }
+  StringLogger* lg;
+  explicit WCompiler(int n, bool logged = false) : nregs(n), lg(logged ? new StringLogger() : nullptr) {}
+  ~WCompiler() override { delete rt; delete lg; }
 
 #define CKH() do { if (eh.first != Error::kOk) { r.fail(eh.first, "error_handler"); return; } } while (0)
 
@@ -452,7 +504,10 @@ struct WCompiler : Workload {
     if (!rt) rt = new JitRuntime();
     if (!code.is_initialized()) CKF(code.init(rt->environment(), rt->cpu_features()));
     code.set_error_handler(&eh);
+    if (lg) { lg->content().clear(); code.set_logger(lg); }
     if (!cc.is_initialized()) CKF(code.attach(&cc));
+    CKF(install_dump_pass(cc));
+    if (lg) cc.add_diagnostic_options(DiagnosticOptions::kRAAnnotate | DiagnosticOptions::kRADebugAll);
 
     // f1(uint32_t* out, const uint32_t* in): many live values in a loop -> spills
     FuncNode* f1 = nullptr;
@@ -586,6 +641,7 @@ struct WCompilerArgs : Workload {
     if (!code.is_initialized()) CKF(code.init(rt->environment(), rt->cpu_features()));
     code.set_error_handler(&eh);
     if (!cc.is_initialized()) CKF(code.attach(&cc));
+    CKF(install_dump_pass(cc));
     FuncNode* f = nullptr;
     CK(cc.add_func_node(Out(f), FuncSignature::build<uint32_t, uint32_t, uint32_t, uint32_t, uint32_t, uint32_t, uint32_t, uint32_t, uint32_t, uint32_t, uint32_t, uint32_t, uint32_t>()));
     if (!f) { r.fail(Error::kOutOfMemory, "add_func_node=null"); return; }
@@ -661,6 +717,7 @@ struct WCompilerReinit : Workload {
     if (!code.is_initialized()) CKF(code.init(rt->environment(), rt->cpu_features()));
     code.set_error_handler(&eh);
     if (!cc.is_initialized()) CKF(code.attach(&cc));
+    CKF(install_dump_pass(cc));
     emit_func(r, 6, policy);
     if (r.err != Error::kOk) return;
     Res tmp;
@@ -668,6 +725,7 @@ struct WCompilerReinit : Workload {
     if (tmp.err != Error::kOk) { r = tmp; r.have_bytes = false; return; }
     CKF(code.reinit());
     if (!cc.is_initialized()) { r.fail(Error::kInvalidState, "compiler detached by reinit"); return; }
+    CKF(install_dump_pass(cc));
     emit_func(r, 20, policy);
     if (r.err != Error::kOk) return;
     canonical_image(code, r, policy);
@@ -879,6 +937,9 @@ struct WContainers : Workload {
 static Workload* make_workload(const std::string& wid) {
   if (wid == "asm") return new WAsmX86(12);
   if (wid == "asm_big") return new WAsmX86(60);
+  if (wid == "asm_log") return new WAsmX86(12, true);
+  if (wid == "builder_log") return new WBuilder(12, true);
+  if (wid == "compiler_log") return new WCompiler(12, true);
   if (wid == "asm32") return new WAsmX86_32();
   if (wid == "asm_reinit") return new WAsmReinit();
   if (wid == "a64") return new WAsmA64();
@@ -906,6 +967,7 @@ static void print_res(const char* tag, const Res& r) {
   printf(" %s_exec=", tag);
   if (r.have_exec) printf("%016llx:%zu", (unsigned long long)fnv1a(r.exec.data(), r.exec.size()), r.exec.size());
   else printf("-");
+  printf(" %s_ra=%s", tag, r.ra.empty() ? "-" : r.ra.c_str());
   printf(" %s_mon=%s", tag, sanitize(r.mon).c_str());
 }
 
@@ -949,13 +1011,17 @@ int main(int argc, char** argv) {
         Workload* w = make_workload(t[1]);
         if (!w) { printf("BAD workload\n"); continue; }
         F.reset_counters(); F.mode = mode; F.armed = true;
+        g_ra_dump.clear();
         w->run(r1, policy);
         F.armed = false;
+        r1.ra = g_ra_dump;
         fired = F.fired; na = F.n_arena; nh = F.n_heap; nv = F.n_vm; ns = F.n_slow;
         F.mode = FM_NONE;
         if (rec == 2) { delete w; w = make_workload(t[1]); }
         else w->recover(rec);
+        g_ra_dump.clear();
         w->run(r2, P_STOP);
+        r2.ra = g_ra_dump;
         delete w;
       }
       long h1 = F.live_heap, m1 = F.live_maps, fd1 = count_open_fds();
